@@ -14,7 +14,8 @@ import CpModel.Pipeline
     `if streaming and is_closable_iterator(self.iter_response)` — which raises `AttributeError` when
     `close()` runs from the `except` block of `__init__` before `self.iter_response` was assigned
     (quirk: an `InternalRedirect` leaving a request whose `response.stream` is true is replaced by
-    that `AttributeError`).
+    that `AttributeError`; whether the running code still has the quirk is probed on every run:
+    `Gen.Pipeline.closeBeforeIterRaises`, and every theorem holds for both values).
   * `InternalRedirector(recursive=False)`: list of visited URLs (= page index + "has a query string":
     only the original request can carry one, redirect targets never do), `RuntimeError` on a repeated URL after `ir.request.close()` (a no-op: the request
     was closed by `AppResponse.__init__`), the redirected request is a `GET` with an empty body.
@@ -85,7 +86,8 @@ def appResponse (pg : Page) (meth : Method) (noHost badQuery : Bool) (r : Nat) :
     -- except BaseException: self.close(); raise
     let jc := closeRequest pg a.st
     -- close(): `self.iter_response` is not assigned yet → AttributeError when streaming
-    (tag r (a.j ++ jc), .raised (if streaming pg a.st then .exc else e) (showTb pg a.st))
+    (tag r (a.j ++ jc),
+     .raised (if streaming pg a.st && Gen.Pipeline.closeBeforeIterRaises then .exc else e) (showTb pg a.st))
   | none =>
     if a.st.body = .page .nonIter then
       -- iter(r.body) raises TypeError; only a streamed body reaches this point uncollapsed
